@@ -209,7 +209,9 @@ class kFlowDecomp(pathmodel.AbstractPathModelDAG):
                 greedy_solution_paths = self._solution["paths"]
                 self.optimization_options["external_solution_paths"] = greedy_solution_paths
         
-        if self.optimize_with_flow_safe_paths and satisfies_flow_conservation:
+        # Flow-safe paths are derived from the flow values of all edges: like the greedy algorithm, they can be used
+        # only if there are no edges to ignore (an ignored edge need not be explained, so it must not make a path safe)
+        if self.optimize_with_flow_safe_paths and len(edges_to_ignore_internal) == 0 and satisfies_flow_conservation:
             start_time = time.perf_counter()
             self.optimization_options["external_safe_paths"] = sfd.compute_flow_decomp_safe_paths(G=self.G_internal, flow_attr=self.flow_attr)
             self.solve_statistics["flow_safe_paths_time"] = time.perf_counter() - start_time
